@@ -208,6 +208,40 @@ class Project:
                 res.update(d.get(s + ("VarsWeak" if weak else "Vars"), []))
         return res
 
+    def spec_tools(self, package, stage):
+        """(tools named strong, tools named only weak) for `stage` of `package`, accumulated over the stages, the recipe
+        and its classes - from the YAML data (tool conditions and dependTools are not generated)"""
+        _, chain = self.packages()[package]
+        strong, weak = set(), set()
+        for d in self.class_closure(chain):
+            for s in STAGES[:STAGES.index(stage) + 1]:
+                strong.update(x if isinstance(x, str) else x["name"] for x in d.get(s + "Tools", []))
+                weak.update(x if isinstance(x, str) else x["name"] for x in d.get(s + "ToolsWeak", []))
+        return strong, weak - strong
+
+    def permute_deps(self, rng):
+        """(Project', affected package names): the `depends` lists whose entries do not forward anything to their
+        siblings are shuffled.  Only the packages made from a changed list (and everything above them) may change ids."""
+        q = self.copy()
+        changed = []
+        for path, d in _all_dicts(q):
+            deps = d.get("depends", [])
+            if len(deps) < 2 or any(isinstance(x, dict) and (x.get("forward") or "depends" in x) for x in deps):
+                continue
+            new = list(deps)
+            for _ in range(5):
+                rng.shuffle(new)
+                if new != deps:
+                    break
+            if new != deps:
+                d["depends"] = new
+                changed.append(d)
+        affected = set()
+        for name in q.packages():
+            if any(any(f is c for c in changed) for f in q.resolution_order(name)):
+                affected.add(name)
+        return q, affected
+
     def spec_decls(self, package):
         """the raw declaration lists (for the Lean `split` operation): own chain merged as the recipe, classes in
         resolution order.  Returns (self_decl, [class_decl...]) for variables and the same for tools (names only,
@@ -609,6 +643,11 @@ def _gen_scm(rng, idx):
             s["commit"] = rng.choice(["0123456789abcdef0123456789abcdef01234567", "89abcdef0123456789abcdef0123456789abcdef"])
         elif r < 0.8:
             s["rev"] = "refs/heads/" + rng.choice(["main", "x"])
+        elif r < 0.95:
+            # several references at once: what is checked out follows commit > tag > branch
+            for k, vals in rng.sample([("branch", ["main", "dev"]), ("tag", ["v1", "v2"]),
+                                       ("commit", ["0123456789abcdef0123456789abcdef01234567"])], rng.randrange(2, 4)):
+                s[k] = rng.choice(vals)
         if _maybe(rng, 0.2):
             s["submodules"] = rng.choice([True, ["m1", "m2"]])
             if _maybe(rng, 0.5):
@@ -801,7 +840,32 @@ def gen_project(rng, size=8):
         for n, prov in leaves:
             provides[n] = prov
             pkgnames.append(n)
+    if _maybe(rng, 0.6):
+        _add_reuse_motif(rng, p)
     return p
+
+
+def _add_reuse_motif(rng, p):
+    """one recipe reached several times in one graph under different environments: `u_lib` consumes the variable VU
+    (declared, never defined by itself); `u_a` takes it as it is (VU unset), `u_b`/`u_c` set VU for it; the root lists
+    them in random order (unset first / set first)"""
+    stages = rng.sample(STAGES, rng.randrange(1, 3))
+    lib = {"buildScript": rng.choice(["echo lib ${VU:-none}", "make lib"]), "packageScript": "cp -a $1/* ."}
+    for st in stages:
+        lib[st + "Vars"] = ["VU"]
+    if "checkout" in stages or _maybe(rng, 0.3):
+        lib["checkoutScript"] = "echo src"
+    if _maybe(rng, 0.3):
+        lib["buildVarsWeak"] = [rng.choice(WEAK_ONLY)]
+    p.recipes["u_lib"] = lib
+    users = ["u_a", "u_b"] + (["u_c"] if _maybe(rng, 0.4) else [])
+    for k, u in enumerate(users):
+        dep = "u_lib" if k == 0 else {"name": "u_lib", "environment": {"VU": rng.choice(["1", "2", "x y"])}}
+        p.recipes[u] = {"depends": [dep], "buildScript": "use $2 # " + u, "packageScript": "true"}
+        if _maybe(rng, 0.3):
+            p.recipes[u]["packageDepends"] = True
+    rng.shuffle(users)
+    p.recipes["u_root"] = {"root": True, "depends": users, "buildScript": "link \"$@\"", "packageScript": "true"}
 
 
 def witness_host_collision():
